@@ -196,6 +196,14 @@ PROGRAMS = {
     # another object than the declared one is read into the stream: the save is rejected (uninterrupted only, as badsave_fin)
     "declare_bad": {"msgs": [M("open_run"), M("checkpoint"), M("declare_stream", "det2", a="baseline"), M("create", a="baseline"), M("read", "det"), M("save"),
                              M("null"), M("close_run")], "kind": "finally", "try": [2, 7], "cleanup": [8, 8]},
+    # two statuses in one group that fail one after the other; the plan's clean-up waits for the group again: every failure must
+    # be delivered at a wait on the group (fault scenario twofail|fault:...)
+    "twofail": {"msgs": [M("open_run"), M("checkpoint"), M("set", "motor", a="g1"), M("set", "motor2", a="g1", value=2), M("wait", a="g1"), M("null"),
+                         M("wait", a="g1"), M("checkpoint"), M("sleep"), M("close_run")],
+                "kind": "finally", "try": [2, 6], "cleanup": [7, 10]},
+    # the plan's clean-up itself fails (after an abort: the run is closed by the engine as failed, with the exception's text)
+    "badclean": {"msgs": [M("open_run"), M("checkpoint"), M("sleep"), M("null"), M("null"), M("null")],
+                 "kind": "finally", "try": [2, 4], "cleanup": [5, 6], "raise_at": 6},
     "cfginb": {"msgs": [M("open_run"), M("checkpoint"), M("create", a="primary"), M("read", "det"), M("configure", "det"), M("save"), M("close_run")]},
 }
 ASYNC_PLANS = {"amove", "aopen", "aselfpause_nores"}      # devices whose stop()/pause()/resume() are coroutines that really suspend
@@ -514,7 +522,7 @@ def corpus_spec(tier):
     sweeps = []
     progs = ["simple", "two", "fin", "move", "mon", "multi", "defer", "norew", "paus", "err", "openonly", "mon_then", "nores_open", "nores_rew", "nores_rew_ckpt", "nores_then_ckpt", "unstage_only", "cfg_late", "multi_close", "amove", "aopen", "aselfpause_nores",
              "selfpause", "selfpause_nores", "selfpause_nores_fin", "selfdefer_nores", "norew_save",
-             "fly", "fly_prep", "fly_left", "fly_fin", "fly_twice", "fly_multi", "declare", "declare_mix"]
+             "fly", "fly_prep", "fly_left", "fly_fin", "fly_twice", "fly_multi", "declare", "declare_mix", "badclean"]
     kinds = REQ_KINDS
     if quick:
         sweeps.append(dict(plans=progs, kinds=["pause", "suspend", "abort"], decisions=["resume"], ri=True))
@@ -672,6 +680,12 @@ def fault_scenarios(tier):
             if not quick:
                 out.append(with_inject(base, [{"at": p, "kind": "suspend", "arg": "f1"}, {"at": p + 2, "kind": "release", "arg": "f1"}],
                                        ["resume"] * 3, f"suspend@{p}"))
+    # two statuses of one group failing one after the other (and only the first / only the second)
+    for f1, f2 in (("fail_later", "fail_later"), ("fail_later", None), (None, "fail_later")):
+        faults = {d: {"set": m} for d, m in (("motor", f1), ("motor2", f2)) if m}
+        base = base_scenario("twofail", faults=faults, delay={"motor": 1.0, "motor2": 3.0})
+        base["id"] = f"twofail|fault:set:{f1 or 'ok'}+{f2 or 'ok'}"
+        out.append(base)
     base = base_scenario("move", delay={"motor": 1.0, "det": 1.0})
     base["id"] = "move|slow"
     n = run_one(base)["points"]
@@ -1058,6 +1072,19 @@ def two_call_scenarios(tier):
         sc["then"] = [copy.deepcopy(second)]
         sc["id"] = "2call:" + sc["id"]
         out.append(sc)
+    # the first call ends while the engine is NOT resumable (inside a clear_checkpoint section: normally, after a failed pause,
+    # aborted); the second call is paused / suspended BEFORE its plan's first checkpoint: a new call starts resumable
+    for plan, tag, inj, dec in (("nores_open", "plain", [], []), ("nores_rew", "plain", [], []),
+                                ("nores_open", "pause@8", [{"at": 8, "kind": "pause"}], []),
+                                ("nores_open", "abort@8", [{"at": 8, "kind": "abort"}], []),
+                                ("selfpause_nores", "plain", [], [])):
+        for p in (1, 2, 3):
+            for kind in ("pause", "suspend"):
+                inj2 = [{"at": p, "kind": kind, "arg": "f1"}] + ([{"at": p + 2, "kind": "release", "arg": "f1"}] if kind == "suspend" else [])
+                sc = with_inject(base_scenario(plan), inj, dec, tag + f"|then-simple-{kind}@{p}")
+                sc["then"] = [{"plan": prog_plan("simple"), "inject": inj2, "decisions": ["resume", "resume"]}]
+                sc["id"] = "2call:" + sc["id"]
+                out.append(sc)
     return out
 
 
